@@ -67,6 +67,17 @@ abi.payable(default, noop, constructor, pv)
 abi.fee_delegation(fd)
 `
 
+
+// luaD: a contract whose `default` function is a declared view that tries to write; a transaction that names no
+// function reaches it through the other branch of resolveFunction
+const luaD = `
+state.var { v = state.value() }
+function constructor() v:set(0) end
+function default() v:set((v:get() or 0) + 1) system.setItem("raw", "1") contract.event("ev", 1) end
+abi.register_view(default)
+abi.payable(constructor)
+`
+
 // mutating operations and whether they need an address argument
 var opList = []struct {
 	name string
@@ -313,6 +324,35 @@ func run(c *vf.Ctx, ver int, eps map[string][]string) {
 			st, ret, bad, ok := viaTx(types.TxType_FEEDELEGATION, M, call("fd", op, a), M)
 			return st == "SUCCESS", st + " " + ret, bad, ok
 		}},
+	}
+	// default view reached by an unnamed call (once per version): the declared view must not change the state
+	if plD, err := rig.DeployPayload(luaD, nil, int32(ver)); err != nil {
+		c.Count("default_view/compile-unavailable", 1)
+	} else {
+		nonce++
+		tx := rig.TxSpec{Type: types.TxType_DEPLOY, From: user, Nonce: nonce, Amount: big.NewInt(0), Payload: plD, GasPrice: gp, ChainID: cid()}.Build()
+		rsp := produce(tx)
+		if rsp == nil || len(rsp.Receipts) != 1 || rsp.Receipts[0].Status != "CREATED" {
+			if rsp != nil && len(rsp.Included) == 0 {
+				nonce--
+			}
+			c.Count("default_view/deploy-unavailable", 1)
+		} else {
+			D := rig.ContractID(user.Addr, nonce)
+			for _, typ := range []types.TxType{types.TxType_CALL, types.TxType_NORMAL} {
+				c.Eval(1)
+				st, ret, bad, ok := viaTx(typ, D, nil, user.Addr)
+				if !ok {
+					continue
+				}
+				if len(bad) > 0 {
+					c.Violation("state-changed-in-read-only-context/default-view/unnamed-call", fmt.Sprintf("%s: a `default` function registered as a view, reached by a %v transaction that names no function, changed the state: %v (outcome: %s %.200s)", name, typ, bad, st, ret),
+						map[string]interface{}{"version": ver, "operation": "default-view-writes", "context": "view-tx:unnamed-call-to-default", "detail": st + " " + ret, "diff": bad})
+					continue
+				}
+				c.Count("checked/view-tx:unnamed-call-to-default/"+st, 1)
+			}
+		}
 	}
 	decide := func(op string, a interface{}, label string) {
 		// positive control: the operation in an ordinary call changes state
